@@ -7,6 +7,7 @@
 -/
 import Proofs.C01c
 import Proofs.C01Geom
+import Proofs.C01Abs
 
 open Finset
 
@@ -359,5 +360,103 @@ example : path3d (1 : ℝ) 3 (fun l => (l : ℝ)) (fun l => (l : ℝ)) (fun _ =>
 
 /-- the clipped case is not vacuous: origin at distance 1, sphere of radius 3, tangent radius 1 -/
 example := origin_inside_clips 1 2 1 1 (by norm_num) (by norm_num) (by norm_num)
+
+/-! ### the cross-section entering the optical depth at a wavenumber is the molecule's cross-section at that wavenumber
+
+  `AbsorptionGrid.absSigma` is the `sigma_xsec` of `AbsorptionContribution` on the grid of the run when every active molecule
+  is tabulated on its own wavenumber grid (`Opacity.opacity(T, P, wngrid)`: own points are selected, any other request is
+  interpolated between the bracketing native points).  The harness compares it with the real contribution for molecules on
+  equal, sub-sampled, shifted and equally long but different grids. -/
+
+open Taurex.AbsorptionGrid in
+/-- molecules tabulated on the grid of the run enter the optical depth with exactly their tabulated cross-sections,
+    weighted by their mixing ratios: `sigma_xsec[l, w] = Σ_gas xsec_gas(T_l, P_l)[w] · mix_gas[l]` -/
+theorem absSigma_own_grid (gases : List (Gas ℝ)) (req : List ℝ) (l w : ℕ)
+    (h : ∀ g ∈ gases, g.wn = req ∧ (g.vals l).length = req.length) :
+    absSigma gases req l w = (gases.map fun g => (g.vals l).getD w 0 * g.mix l).sum := by
+  induction gases with
+  | nil => simp [C01Abs.absSigma_nil]
+  | cons g gs ih =>
+    rw [C01Abs.absSigma_cons, ih (fun g' hg' => h g' (List.mem_cons_of_mem _ hg')), List.map_cons, List.sum_cons]
+    obtain ⟨h1, h2⟩ := h g List.mem_cons_self
+    unfold gasOnGrid
+    rw [← h1, C01Abs.opacityOnGrid_self g.wn (g.vals l) (by rw [h2, h1])]
+
+open Taurex.AbsorptionGrid in
+example : absSigma [⟨[1, 2, 3], fun _ => [10, 20, 30], fun _ => 2⟩, ⟨[1, 2, 3], fun _ => [1, 2, 3], fun _ => 5⟩]
+    ([1, 2, 3] : List ℝ) 0 1 = 20 * 2 + 2 * 5 := by
+  rw [absSigma_own_grid _ _ _ _ (by intro g hg; simp at hg; rcases hg with rfl | rfl <;> simp)]
+  simp
+
+open Taurex.AbsorptionGrid in
+/-- whatever grids the molecules are tabulated on (non-decreasing, overlapping the request), non-negative tables and
+    mixing ratios give a non-negative absorption cross-section on the grid of the run: the hypothesis `Contrib.Nonneg`
+    of every statement above (`depth_ge_bare`, `depth_le_opaque`, `cutoff_licensed`, `depth_mono_scale`, …) holds for
+    the contribution built from the tables -/
+theorem absSigma_nonneg (gases : List (Gas ℝ)) (req : List ℝ) (hi : ℝ)
+    (h : ∀ g ∈ gases, ∀ l, g.wn.length = (g.vals l).length ∧ g.wn.Pairwise (· ≤ ·) ∧
+      (∀ v ∈ g.vals l, 0 ≤ v ∧ v ≤ hi) ∧ 0 ≤ g.mix l ∧
+      0 < ((g.wn.drop (Interp.searchRight g.wn (Grid.minL req) - 1)).take
+        (min (Interp.searchLeft g.wn (Grid.maxL req)) (g.wn.length - 1) + 1 -
+          (Interp.searchRight g.wn (Grid.minL req) - 1))).length) :
+    Contrib.Nonneg { kind := Kind.lin, sigma := absSigma gases req } := by
+  intro l w
+  show 0 ≤ absSigma gases req l w
+  induction gases with
+  | nil => rw [C01Abs.absSigma_nil]
+  | cons g gs ih =>
+    rw [C01Abs.absSigma_cons]
+    obtain ⟨a1, a2, a3, a4, a5⟩ := h g List.mem_cons_self l
+    have := C01Abs.gasOnGrid_nonneg g req l w hi a1 a2 a3 a5
+    have := ih (fun g' hg' => h g' (List.mem_cons_of_mem _ hg'))
+    positivity
+
+open Taurex.AbsorptionGrid in
+/-- on its own native points a molecule's values are selected, on any other request each value lies between the smallest
+    and the largest tabulated value it is interpolated from - also when the request has as many points as the table -/
+theorem gasOnGrid_between (g : Gas ℝ) (req : List ℝ) (l w : ℕ) (lo hi : ℝ) (hw : w < (Grid.opacityOnGrid g.wn (g.vals l) req).length)
+    (hlen : g.wn.length = (g.vals l).length) (hs : g.wn.Pairwise (· ≤ ·))
+    (hv : ∀ v ∈ g.vals l, lo ≤ v ∧ v ≤ hi)
+    (hne : 0 < ((g.wn.drop (Interp.searchRight g.wn (Grid.minL req) - 1)).take
+      (min (Interp.searchLeft g.wn (Grid.maxL req)) (g.wn.length - 1) + 1 -
+        (Interp.searchRight g.wn (Grid.minL req) - 1))).length) :
+    lo ≤ gasOnGrid g req l w ∧ gasOnGrid g req l w ≤ hi := by
+  unfold gasOnGrid
+  rw [NpInterp.getD_eq _ _ hw]
+  exact C01Abs.gasOnGrid_mem_between g req l lo hi hlen hs hv hne _ (List.getElem_mem _)
+
+-- non-vacuity: a 3-point table requested on 3 OTHER points between the same limits (the selection is not empty)
+open Taurex.AbsorptionGrid in
+theorem nv_selection : 0 < ((([1, 2, 4] : List ℝ).drop (Interp.searchRight ([1, 2, 4] : List ℝ) (Grid.minL ([1, 3, 4] : List ℝ)) - 1)).take
+    (min (Interp.searchLeft ([1, 2, 4] : List ℝ) (Grid.maxL ([1, 3, 4] : List ℝ))) (([1, 2, 4] : List ℝ).length - 1) + 1 -
+      (Interp.searchRight ([1, 2, 4] : List ℝ) (Grid.minL ([1, 3, 4] : List ℝ)) - 1))).length := by
+  have h1 : Grid.minL ([1, 3, 4] : List ℝ) = 1 := by norm_num [Grid.minL]
+  have h2 : Grid.maxL ([1, 3, 4] : List ℝ) = 4 := by norm_num [Grid.maxL]
+  rw [h1, h2]
+  norm_num [Interp.searchRight, Interp.searchLeft, List.countP_cons]
+
+open Taurex.AbsorptionGrid in
+example : Contrib.Nonneg { kind := Kind.lin, sigma := absSigma [⟨[1, 2, 4], fun _ => [5, 0, 7], fun _ => 3⟩] ([1, 3, 4] : List ℝ) } :=
+  absSigma_nonneg _ _ 7 (by
+    intro g hg l
+    simp only [List.mem_singleton] at hg
+    subst hg
+    refine ⟨rfl, by norm_num, ?_, by norm_num, nv_selection⟩
+    intro v hv
+    simp only [List.mem_cons, List.not_mem_nil, or_false] at hv
+    rcases hv with rfl | rfl | rfl <;> norm_num)
+
+open Taurex.AbsorptionGrid in
+example : (5 : ℝ) ≤ gasOnGrid ⟨[1, 2, 4], fun _ => [5, 6, 7], fun _ => 3⟩ ([1, 3, 4] : List ℝ) 0 1 := by
+  refine (gasOnGrid_between _ _ 0 1 5 7 ?_ rfl (by norm_num) ?_ nv_selection).1
+  · have h1 : Grid.minL ([1, 3, 4] : List ℝ) = 1 := by norm_num [Grid.minL]
+    have h2 : Grid.maxL ([1, 3, 4] : List ℝ) = 4 := by norm_num [Grid.maxL]
+    simp only [Grid.opacityOnGrid, List.length_map, apply_ite List.length]
+    split
+    · norm_num [Grid.inRange, h1, h2, List.filter_cons]
+    · simp
+  · intro v hv
+    simp only [List.mem_cons, List.not_mem_nil, or_false] at hv
+    rcases hv with rfl | rfl | rfl <;> norm_num
 
 end Taurex.C01
